@@ -187,6 +187,31 @@ def roundtrip_once(seed):
         problems.append("BasicReadAssignment reader not aligned")
     if _flat(ref) != _flat(r3):
         problems.append("BasicReadAssignment fields differ")
+    problems += _geneinfo_roundtrip(rng, tail)
+    return problems
+
+
+def _geneinfo_roundtrip(rng, tail):
+    """the gene-info record written before the read assignments of each locus: delta, gene ids, chromosome, gene region"""
+    import types
+    gi = native.repo_import("src/gene_info.py")
+    s = rng.randrange(1, 2 ** 30)
+    e = s + rng.randrange(0, 2 ** 20)
+    g = gi.GeneInfo.from_region(_rand_str(rng), s, e, rng.choice([0, 4, 6, 12]))
+    # the region covered by reads is usually larger than the gene region
+    g.all_read_region_start, g.all_read_region_end = s - rng.randrange(0, min(s, 500)), e + rng.randrange(0, 500)
+    g.gene_db_list = [types.SimpleNamespace(id=_rand_str(rng)) for _ in range(rng.randint(0, 3))]
+    buf = io.BytesIO()
+    g.serialize(buf)
+    buf.write(tail)
+    buf.seek(0)
+    g2 = gi.GeneInfo.deserialize(buf, None)
+    problems = []
+    if buf.read() != tail:
+        problems.append("gene info reader not aligned")
+    for f in ("delta", "chr_id", "start", "end"):
+        if getattr(g, f) != getattr(g2, f):
+            problems.append("gene info %s saved as %r, loaded as %r" % (f, getattr(g, f), getattr(g2, f)))
     return problems
 
 
@@ -197,7 +222,7 @@ def replay_roundtrip(d):
 
 @bounded("C15.native_roundtrip", ["C15"], shards=4, note="random real ReadAssignment objects (all enum members, None ids, negative event "
          "offsets, sentinel positions, dict values of all three kinds) written with the real serialize and read back by the "
-         "full and the abridged reader; bounded: N random objects")
+         "full and the abridged reader, plus the gene-info record of a locus (gene region differing from the read region); bounded: N random objects")
 def c15_native(tier, rng):
     n = 400 if tier == "quick" else 20000
     base = rng.randrange(10 ** 9)
